@@ -198,6 +198,18 @@ define bot express greeting
 """
 
 
+# generation options that must not change anything the property speaks about (one set per
+# conversation: the history cache is keyed by the options too, so a caller that changes them
+# between calls re-submits its transcript - DESIGN C01 scope note)
+NEUTRAL_OPTIONS = {
+    "none": None,
+    "log": {"log": {"activated_rails": True, "llm_calls": True}},
+    "rails_all": {"rails": ["input", "dialog", "retrieval", "output"]},
+    "llm_params": {"llm_params": {"temperature": 0.3}},
+    "llm_output": {"llm_output": True},
+}
+
+
 def _verdict_value(v):
     if v == "a":
         return None
@@ -287,14 +299,32 @@ def run_v1(app, rec, case):
         app.runtime.generate_events = _rec_generate_events
     history = []
     turns_out = []
+    api = case.get("api", "messages")
+    conv_options = NEUTRAL_OPTIONS.get(case.get("options") or "none")
+    state = {}
     for turn in case["turns"]:
         rec.iv, rec.ov, rec.llm = turn["iv"], turn["ov"], turn.get("llm", [])
         rec.act = turn.get("act", "")
         rec.obs, rec.llm_i = [], 0
         history.append({"role": "user", "content": turn["user"]})
         app.runtime._verif_last_events = None
+        # per-call generation options: the conversation-wide neutral ones, and (state API) the
+        # rails categories this call switches off
+        options = None if conv_options is None else json.loads(json.dumps(conv_options))
+        opt = turn.get("opt")
+        if opt and not (opt.get("input", True) and opt.get("output", True)):
+            options = dict(options or {})
+            options["rails"] = {"input": bool(opt.get("input", True)), "output": bool(opt.get("output", True))}
         try:
-            res = app.generate(messages=history)
+            if api == "state":
+                res = app.generate(messages=[{"role": "user", "content": turn["user"]}], state=state,
+                                   **({"options": options} if options is not None else {}))
+                state = res.state
+                res = res.response[0]
+            elif options is not None:
+                res = app.generate(messages=history, options=options).response[0]
+            else:
+                res = app.generate(messages=history)
         except Exception as e:  # noqa: BLE001 - an escaping exception is an observation
             turns_out.append({"obs": rec.obs, "error": f"{type(e).__name__}: {e}"[:300]})
             break
@@ -709,7 +739,9 @@ def coq_turns(case):
         ts.append("(mkTC " + C.coq_string(t["user"]) + " " + C.coq_list([coq_verdict(v) for v in t["iv"]]) + " "
                   + C.coq_list([coq_verdict(v) for v in t["ov"]]) + " "
                   + C.coq_list([C.coq_string(x) for x in t.get("llm", [])]) + " "
-                  + C.coq_string(t.get("act", "")) + ")")
+                  + C.coq_string(t.get("act", "")) + " "
+                  + C.coq_bool((t.get("opt") or {}).get("input", True)) + " "
+                  + C.coq_bool((t.get("opt") or {}).get("output", True)) + ")")
     return C.coq_list(ts)
 
 
@@ -852,6 +884,41 @@ def rand_vec(rng, n, alphabet, p_accept=0.6):
     return [("a" if rng.random() < p_accept else rng.choice(alphabet)) for _ in range(n)]
 
 
+def state_api_cases(focus, rng, n_per_config=8):
+    """Colang 1.0 served through the explicit state API (`generate(messages=[new], state=prev.state)`)
+    with PER-CALL generation options: one call switches a rails category off, the other calls
+    bring no options - they must run all their rails again (options are per call; the state
+    carries none)."""
+    cases = []
+    for mode, exc in (("general", False), ("general", True), ("dialog", False), ("dialog", True)):
+        for i in range(n_per_config):
+            n_in, n_out = rng.choice([(1, 2), (2, 1), (1, 1), (2, 2)])
+            T = 4
+            turns = []
+            for t in range(T):
+                iv = rand_vec(rng, n_in, ["a", "r", "w"], 0.6)
+                ov = rand_vec(rng, n_out, ["a", "r", "w"], 0.5)
+                kind = rng.choice(["p", "f", "n", "v"]) if mode == "dialog" else ""
+                turns.append(mk_turn("v1", mode, t, iv, ov, kind))
+            p = i % 3
+            side = "output" if (focus == "out" or i % 2 == 0) else "input"
+            turns[p]["opt"] = {"input": side != "input", "output": side != "output"}
+            if mode == "dialog" and turns[p + 1]["kind"] == "p":
+                turns[p + 1] = mk_turn("v1", mode, p + 1, turns[p + 1]["iv"], turns[p + 1]["ov"], "f")
+            if side == "output":
+                turns[p]["iv"] = ["a"] * n_in
+                turns[p + 1]["iv"] = ["a"] * n_in
+                turns[p + 1]["ov"] = [rng.choice(["r", ["w", f"RO{p + 1}x0z"]])] + ["a"] * (n_out - 1)
+            else:
+                turns[p + 1]["iv"] = [rng.choice(["r", ["w", f"RI{p + 1}x0z"]])] + ["a"] * (n_in - 1)
+            if i % 4 == 3:   # two different calls with options
+                q = (p + 2) % T
+                turns[q]["opt"] = {"input": rng.random() < 0.5, "output": rng.random() < 0.5}
+            cases.append({"ver": "v1", "mode": mode, "exc": exc, "n_in": n_in, "n_out": n_out, "api": "state",
+                          "turns": turns})
+    return cases
+
+
 def gen_cases(focus, tier, rng):
     """focus 'in' (C01) / 'out' (C02): every verdict vector of the focused side at every turn
     position of a conversation, for every configuration; the other turns and the other side
@@ -892,6 +959,13 @@ def gen_cases(focus, tier, rng):
                 for vec in all_vectors(n, ["a", "r"]):
                     cases.append(conv("v2", "", exc, n_in, n_out, p, vec, T))
     cases += reuse_cases(focus, rng, 14 if tier == "quick" else 70)
+    # the messages API is also exercised WITH (neutral) generation options on every call
+    names = ["none", "log", "rails_all", "none", "llm_params", "llm_output", "log"]
+    for i, c in enumerate(cases):
+        if c["ver"] == "v1":
+            c["api"] = "messages"
+            c["options"] = names[(i + len(c["turns"][0]["iv"])) % len(names)]
+    cases += state_api_cases(focus, rng, 8 if tier == "quick" else 40)
     if tier == "thorough":
         for i in range(1500):
             ver = rng.choice(["v1", "v1", "v2"])
@@ -1004,10 +1078,13 @@ def run_check(pid, gen, focus, oracle, tier, seed, replay, checker_cmd, rule, as
     # ---- correspondence with the model (evaluated inside Coq)
     n_turns = 0
     _t0 = _time.time()
-    disagreements = {"v1": [], "v2": []}
+    disagreements = {"v1": [], "v1s": [], "v2": []}
     if okm:
-        for ver, fn in (("v1", "check_v1"), ("v2", "check_v2")):
-            idx = [i for i, c in enumerate(cases) if c["ver"] == ver and results[i] is not None]
+        def family(c):
+            return "v1s" if (c["ver"] == "v1" and c.get("api") == "state") else c["ver"]
+
+        for ver, fn in (("v1", "check_v1"), ("v1s", "check_v1_state"), ("v2", "check_v2")):
+            idx = [i for i, c in enumerate(cases) if family(c) == ver and results[i] is not None]
             terms = [case_term(cases[i], results[i]) for i in idx]
             n_turns += sum(len(results[i]) for i in idx)
             if not terms:
@@ -1020,9 +1097,13 @@ def run_check(pid, gen, focus, oracle, tier, seed, replay, checker_cmd, rule, as
     for ver, bad in disagreements.items():
         if bad:
             i = min(bad, key=lambda j: conv_size(cases[j]))
-            fnm = "conv_v1_c" if ver == "v1" else "conv_v2_c current_fixd_run"
+            if ver == "v1s":
+                call = f"conv_v1_state {coq_turns(cases[i])} {coq_cfg(cases[i])} init_state 0 {coq_turns(cases[i])}"
+            else:
+                fnm = "conv_v1_c" if ver == "v1" else "conv_v2_c current_fixd_run"
+                call = f"{fnm} {coq_turns(cases[i])} {coq_cfg(cases[i])}"
             model = C.eval_term(f"{pid}_{ver}", PREAMBLE,
-                                f"map (fun r => (trace_obs (snd (fst r)), snd r)) ({fnm} {coq_turns(cases[i])} {coq_cfg(cases[i])})")
+                                f"map (fun r => (trace_obs (snd (fst r)), snd r)) ({call})")
             out.add_broken(f"correspondence:{pid}-{ver}",
                            f"{len(bad)} conversations disagree with the model; smallest: case={json.dumps(cases[i])} "
                            f"observed={json.dumps(results[i])} model={model[-1500:]}")
@@ -1089,7 +1170,7 @@ def run_check(pid, gen, focus, oracle, tier, seed, replay, checker_cmd, rule, as
             continue
         seen.add(h)
         vs = [v if isinstance(v, str) else "w" for t in c["turns"] for v in t["iv"] + t["ov"]]
-        key = (c["ver"], c.get("mode", ""), c["exc"])
+        key = (c["ver"], c.get("mode", ""), c["exc"], c.get("api", ""), c.get("options", ""))
         hist[str(key)] = hist.get(str(key), 0) + 1
         if (c["n_in"] + c["n_out"]) >= 2 and len(c["turns"]) >= 2 and any(v != "a" for v in vs):
             nontrivial += 1
@@ -1149,6 +1230,10 @@ COMMON_ASSUMPTIONS = [
     "(Colang 2: passing the returned state); re-submitting an old transcript to a fresh instance is history supplied by "
     "the caller and outside the claim (DESIGN C01 scope note); in passthrough mode the caller's message list is sent "
     "verbatim, so texts of earlier rejected turns re-enter prompts through the caller (modelled as `raw`)",
+    "generation options are per call: the messages-API conversations pass one of {none, log, rails list enabling "
+    "everything, llm_params, llm_output} on EVERY call (a caller that changes options between calls misses the history "
+    "cache and thereby re-submits its transcript - scope note); per-call rails.input/rails.output switches are exercised "
+    "through the state API (general and dialog mode), other option categories belong to C16",
     "passthrough x enable_rails_exceptions is not enumerated: a role=`exception` message in the caller's list makes llm_call "
     "raise (internal error + hide_prev_turn), which is C03 territory",
 ]
@@ -1163,6 +1248,9 @@ OBSERVATIONS = [
     "O4: a Colang 1.0 turn that produces more than 100 events makes generate raise Exception('Too many events.') "
     "(runtime.py safety cap): reached with 7 accept-all rails (input+output) in general mode, 6 in dialog mode; an "
     "availability limit outside C01/C02 - the thorough generator stays below it",
+    "O5: Colang 1.0 explicit state API: GenerationResponse.state holds the events of the LAST call only "
+    "(generate_async returns {'events': events} without the state_events it started from), so a call sees the history "
+    "and context of the previous call and nothing older; every call is still gated (modelled in PipeRun.conv_v1_state)",
     "O3: after an internal error (hide_prev_turn) flows read the context of the truncated history while "
     "_process_start_action suppresses ContextUpdates equal to the context of ALL events: a later rail decision can read a "
     "stale action result (seen with passthrough + exception message in the caller's list); reported to the C03 builder",
